@@ -555,7 +555,34 @@ func (w *worker) close() {
 	}
 }
 
-const foreignText = "\"/foreign\" {\n  pull { path \"/x\" }\n}\n"
+// The planted foreign config file is a complete valid config (so that every config tool would "work" on it if
+// it were accepted) and carries two markers that show up in any answer derived from it: the route path (AST,
+// formatted text, diff) and the ingress port (compile summary).
+const (
+	foreignMarkerRoute = "/foreign-marker-7f3a"
+	foreignMarkerPort  = "47391"
+)
+
+func foreignConfigText(adminAddr string) string {
+	return fmt.Sprintf(`ingress { listen "127.0.0.1:%s" }
+pull_api {
+  listen "127.0.0.1:19443"
+  auth token "raw:pulltoken"
+}
+admin_api { listen %q }
+%q {
+  pull { path "/x" }
+}
+"/m" {
+  application "app1"
+  endpoint_name "ep1"
+  pull { path "/em" }
+}
+"/free" {
+  pull { path "/ef" }
+}
+`, foreignMarkerPort, adminAddr, foreignMarkerRoute)
+}
 
 // reset puts the directory into the initial state of a case.
 func (w *worker) reset(needSleeper bool) error {
@@ -581,7 +608,7 @@ func (w *worker) reset(needSleeper bool) error {
 		w.cfgPath: []byte(w.baseCfg),
 		w.dbPath:  w.fx.templateDB,
 		w.logPath: []byte("l1\nl2\nl3\n"),
-		w.foreign: []byte(foreignText),
+		w.foreign: []byte(foreignConfigText(w.fx.healthyAddr)),
 	}
 	for p, b := range files {
 		if err := os.WriteFile(p, b, 0o600); err != nil {
@@ -745,12 +772,14 @@ type sessionResult struct {
 	Audit      []map[string]any
 	AuditBad   int      // audit lines that are not JSON objects
 	Calls      []string // per tools/call: "ok" | "isError" | "rpc-error"
+	CallText   string   // the tools/call responses as JSON text
 }
 
 func (s *sessionResult) refused() bool { return s.RPCError || s.IsError }
 
 // runSession drives initialize, notifications/initialized, tools/list and one tools/call through Serve.
-func (w *worker) runSession(c gateCfg, tool string, args map[string]any, omitArgs bool, repeat int) *sessionResult {
+// configPath is what the server is constructed with ("" = no config path configured).
+func (w *worker) runSession(c gateCfg, configPath, tool string, args map[string]any, omitArgs bool, repeat int) *sessionResult {
 	var in, out, audit bytes.Buffer
 	writeFrame(&in, map[string]any{"jsonrpc": "2.0", "id": 1, "method": "initialize", "params": map[string]any{
 		"protocolVersion": "2024-11-05", "capabilities": map[string]any{}, "clientInfo": map[string]any{"name": "verif-c20", "version": "0"}}})
@@ -780,7 +809,7 @@ func (w *worker) runSession(c gateCfg, tool string, args map[string]any, omitArg
 	if c.RoleVia != "field" {
 		opts = append(opts, mcp.WithRole(mcp.Role(c.Role)))
 	}
-	srv := mcp.NewServer(&in, &out, w.cfgPath, w.dbPath, opts...)
+	srv := mcp.NewServer(&in, &out, configPath, w.dbPath, opts...)
 	if c.RoleVia == "field" {
 		srv.Role = mcp.Role(c.Role)
 	}
@@ -858,6 +887,9 @@ func (w *worker) runSession(c gateCfg, tool string, args map[string]any, omitArg
 		if call == nil {
 			res.ProtoErr = fmt.Sprintf("no response for id %d", 3+i)
 			return res
+		}
+		if b, err := json.Marshal(call); err == nil {
+			res.CallText += string(b) + "\n"
 		}
 		if call["error"] != nil {
 			res.Calls = append(res.Calls, "rpc-error")
